@@ -23,6 +23,7 @@ import (
 )
 
 const simrtName = "simrt_"
+const simfsName = "simfs_"
 const simBase = "verif/sim/"
 
 var swaps = map[string]string{
@@ -187,6 +188,7 @@ func (g *gen) rewriteFile(p *packages.Package, f *ast.File, hints bool) {
 	recvCall := map[ast.Expr]bool{}  // calls produced from `<-ch`
 	labeled := map[ast.Stmt]bool{}   // statements that carry a label
 	selCount := 0
+	usesSimfs := false
 	var funcStack []string
 	curFunc := func() string {
 		if len(funcStack) == 0 {
@@ -281,6 +283,16 @@ func (g *gen) rewriteFile(p *packages.Package, f *ast.File, hints bool) {
 				if fn, ok := info.Uses[sel.Sel].(*types.Func); ok && fn.Pkg() != nil && fn.Pkg().Path() == "syscall" && fn.Name() == "Kill" {
 					n.Fun = &ast.SelectorExpr{X: ident(simrtName), Sel: ident("Kill")}
 				}
+				// file operations of the lease-file package go to the simulated disk
+				if fn, ok := info.Uses[sel.Sel].(*types.Func); ok && fn.Pkg() != nil && fn.Pkg().Path() == "os" && ioutilPkgs[p.PkgPath] {
+					switch fn.Name() {
+					case "ReadFile", "WriteFile", "Rename", "Remove":
+						n.Fun = &ast.SelectorExpr{X: ident(simfsName), Sel: ident(fn.Name())}
+						usesSimfs = true
+					case "Create", "Open", "OpenFile":
+						fail("%s: os.%s in the lease-file package is not supported by the simulated disk", g.fset.Position(n.Pos()), fn.Name())
+					}
+				}
 			}
 
 		case *ast.RangeStmt:
@@ -329,6 +341,9 @@ func (g *gen) rewriteFile(p *packages.Package, f *ast.File, hints bool) {
 
 	// import of the runtime + keep-alive
 	astutil.AddNamedImport(g.fset, f, simrtName, simBase+"simrt")
+	if usesSimfs {
+		astutil.AddNamedImport(g.fset, f, simfsName, simBase+"simioutil")
+	}
 	f.Decls = append(f.Decls, &ast.GenDecl{Tok: token.VAR, Specs: []ast.Spec{
 		&ast.ValueSpec{Names: []*ast.Ident{ident("_")}, Values: []ast.Expr{&ast.SelectorExpr{X: ident(simrtName), Sel: ident("Y")}}},
 	}})
